@@ -47,6 +47,7 @@ class World:
         self.pending_reload = None   # content of a reload that has been issued but cannot have landed yet
         self.nreload = 0
         self.held = False            # searches held by the matcher:chunk hook
+        self.displayed = list(base)  # the list last known to be on display
 
     def current(self):
         return oracle(self.lines, "".join(self.q), self.sort, self.nth, self.excluded)
@@ -100,7 +101,9 @@ class World:
     def do(self, ev):
         """issue one event; returns False when the event does not apply in this state"""
         s = self.s
-        self.cur_before = self.current()
+        # exclude / up act on the list that is DISPLAYED: the current result when everything has settled, else the last list
+        # that was displayed (searches held by the hook, or a reload that cannot have landed yet)
+        self.cur_before = self.current() if self.settled() else self.displayed
         if ev == "HOLD":
             s.hooks.auto.discard("matcher:chunk")
             self.held = True
@@ -149,7 +152,7 @@ class World:
             # two requests inside ONE polling interval of the coordinator: park it at core:wait (a first request makes it come
             # round to the hook point), issue both, release
             a, b = ev[6:].split("|")
-            displayed = self.current()  # while the coordinator is parked nothing new is displayed: exclude / up act on this list
+            displayed = self.cur_before  # while the coordinator is parked nothing new is displayed: exclude / up act on this list
             s.hooks.auto.discard("core:wait")
             s.post("toggle-sort")
             self.cur_before = displayed
@@ -201,6 +204,7 @@ def run_seq(job):
         if not ok:
             res["inconclusive"] = "initial load"
             return res
+        w.displayed = list(w.want)
         if start == 2:
             s.close_stdin()
             w.stdin_open = False
@@ -219,6 +223,7 @@ def run_seq(job):
                                     "want": {"query": "".join(w.q), "matches": w.want, "total": len(w.lines)}})
                 return res
             w.cy = x["position"]
+            w.displayed = list(w.want)
         # end of the sequence: release held searches, end the input, and demand convergence
         s.hooks.release_all()
         w.held = False
